@@ -82,6 +82,8 @@ func applyServiceExtends(ctx context.Context, name string, services map[string]a
 	var (
 		base      any
 		processor PostProcessor
+		// the services among which the extended one is looked up; the result is recorded in `services`
+		baseServices = services
 	)
 
 	if file != nil {
@@ -89,12 +91,14 @@ func applyServiceExtends(ctx context.Context, name string, services map[string]a
 		if !ok {
 			return nil, fmt.Errorf("services.%s.extends.file must be a string", name)
 		}
-		services, processor, err = getExtendsBaseFromFile(ctx, name, ref, filename, refFilename, opts, tracker)
+		baseServices, processor, err = getExtendsBaseFromFile(ctx, name, ref, filename, refFilename, opts, tracker)
 		post = append(post, processor)
 		if err != nil {
 			return nil, err
 		}
 		filename = refFilename
+		// references written inside the extended file are references to that file
+		ctx = context.WithValue(ctx, consts.ComposeFileKey{}, refFilename)
 	} else {
 		_, ok := services[ref]
 		if !ok {
@@ -108,7 +112,7 @@ func applyServiceExtends(ctx context.Context, name string, services map[string]a
 	}
 
 	// recursively apply `extends`
-	base, err = applyServiceExtends(ctx, ref, services, opts, tracker, post...)
+	base, err = applyServiceExtends(ctx, ref, baseServices, opts, tracker, post...)
 	if err != nil {
 		return nil, err
 	}
